@@ -184,8 +184,14 @@ class Engine:
             if v.kind in ("dict", "set"):
                 if "card" in rec:
                     return rec["card"] != 0
-                h = self.hooks.get("truth")
-                raise Unsupported(f"truthiness of {v.kind} without cardinality")
+                if rec.get("lazy"):
+                    return False
+                if rec.get("pure"):
+                    if any(isinstance(x, tuple) for _, x in rec["pyitems"]):
+                        raise Unsupported("truthiness of a record with conditional entries")
+                    return len(rec["pyitems"]) > 0
+                k = z3.Const(fresh_name("tk"), rec["dom"].sort().domain())
+                return z3.Exists([k], z3.Select(rec["dom"], k))          # non-empty: some key is present
             return True
         if isinstance(v, VRef):
             h = self.hooks.get("truth_ref")
@@ -247,6 +253,11 @@ class Engine:
                 return True
             raise Unsupported("structural equality of containers")
         if isinstance(a, (VObj, VRef)) and isinstance(b, (VObj, VRef)):
+            o, r = (a, b) if isinstance(a, VObj) else (b, a)
+            if o.kind == "obj" and isinstance(r, VRef):
+                from .values import ident_of
+                # a reference read from the heap may be this very (materialised) object: compare with its symbolic identity
+                return ident_of(o.oid) == r.t
             return False  # materialised objects are distinct from symbolic ones by construction
         if isinstance(a, VBool) and isinstance(b, VBool):
             return a.t == b.t
